@@ -1,0 +1,83 @@
+//go:build verif
+
+// Contracts of the storage.WalletDB interface for the govc verifier (/verif):
+// only the NUT-13 counter is modelled (ghost wdb.counter); every other method
+// is assumed not to touch it. Comment-only file.
+package storage
+
+//@ func (WalletDB).IncrementKeysetCounter(keysetId, num)
+//@   trusted
+//@   modifies wdb.counter
+//@   ensures err == nil ==> wdb.counter == upd(old(wdb.counter), keysetId, old(wdb.counter)[keysetId] + num)
+//@   ensures err != nil ==> wdb.counter == old(wdb.counter)
+
+//@ func (WalletDB).GetKeysetCounter(keysetId)
+//@   trusted
+//@   pure
+//@   ensures result == wdb.counter[keysetId]
+
+//@ func (WalletDB).SaveProofs
+//@   trusted
+//@   pure
+//@ func (WalletDB).GetProofs
+//@   trusted
+//@   pure
+//@ func (WalletDB).GetProofsByKeysetId
+//@   trusted
+//@   pure
+//@ func (WalletDB).DeleteProof
+//@   trusted
+//@   pure
+//@ func (WalletDB).AddPendingProofs
+//@   trusted
+//@   pure
+//@ func (WalletDB).AddPendingProofsByQuoteId
+//@   trusted
+//@   pure
+//@ func (WalletDB).GetPendingProofs
+//@   trusted
+//@   pure
+//@ func (WalletDB).GetPendingProofsByQuoteId
+//@   trusted
+//@   pure
+//@ func (WalletDB).DeletePendingProofs
+//@   trusted
+//@   pure
+//@ func (WalletDB).DeletePendingProofsByQuoteId
+//@   trusted
+//@   pure
+//@ func (WalletDB).GetKeysets
+//@   trusted
+//@   pure
+// the stored keyset record carries the counter
+//@ func (WalletDB).GetKeyset(keysetId)
+//@   trusted
+//@   pure
+//@   fresh
+//@   ensures result != nil ==> result.Counter == wdb.counter[keysetId] && result.Id == keysetId
+//@   ensures result == nil ==> wdb.counter[keysetId] == 0
+
+// SaveKeyset writes the whole record, counter included
+//@ func (WalletDB).SaveKeyset(ks)
+//@   trusted
+//@   modifies wdb.counter
+//@   ensures err == nil ==> wdb.counter == upd(old(wdb.counter), ks.Id, ks.Counter)
+//@   ensures err != nil ==> wdb.counter == old(wdb.counter)
+//@ func (WalletDB).SaveMintQuote
+//@   trusted
+//@   pure
+//@ func (WalletDB).GetMintQuotes
+//@   trusted
+//@   pure
+//@ func (WalletDB).GetMintQuoteById
+//@   trusted
+//@   pure
+//@ func (WalletDB).SaveMeltQuote
+//@   trusted
+//@   pure
+//@ func (WalletDB).GetMeltQuotes
+//@   trusted
+//@   pure
+//@ func (WalletDB).GetMeltQuoteById
+//@   trusted
+//@   pure
